@@ -184,6 +184,58 @@ def run_config(args):
             "nontrivial": res.nontrivial, "violations": res.violations, "sample": res.samples[:1]}
 
 
+def _client_task(args):
+    """the same through a gateway client that loses its link and reconnects by itself: what the sources claimed on the first
+    connection still holds on the second (the client's decoder is one long-lived decoder)"""
+    kind, map_on, mode, mlist = args
+    from .. import clientkit, vloop
+    kw = {"build_network_map": map_on}
+    if mlist:
+        kw["exclude_manufacturer_code" if mode == "exclude" else "include_manufacturer_code"] = list(mlist)
+
+    def pkt(pgn, src, data, prio=2):
+        return clientkit.render_message(kind, prio, pgn, src, 255, data, False)[0]
+    hd = bytes.fromhex("10270000ff7ffd")
+    claims = pkt(60928, 0, NAMES["a"].to_bytes(8, "little"), 6) + pkt(60928, 2, NAMES["b"].to_bytes(8, "little"), 6)
+    data1 = pkt(127250, 0, bytes([1]) + hd) + pkt(127250, 2, bytes([2]) + hd)
+    data2 = pkt(127250, 0, bytes([3]) + hd) + pkt(127250, 2, bytes([4]) + hd) + pkt(127250, 9, bytes([5]) + hd)
+    # reference: one decoder fed everything in order
+    ref = NMEA2000Decoder(**kw)
+    exp = []
+    for chunk in (claims, data1, data2):
+        for one in ([chunk[i:i + 13] for i in range(0, len(chunk), 13)] if kind == "ebyte" else
+                    [chunk[i:i + 20] for i in range(0, len(chunk), 20)] if kind == "waveshare" else chunk.splitlines(keepends=True)):
+            m = clientkit.decode_one(ref, kind, one)
+            if m is not None:
+                exp.append(common.msg_view(m))
+    vios, n = [], 0
+    for how in ("eof", "reset"):
+        drop = (lambda sess: (vloop.sp_eof(sess) or True)) if how == "eof" else (lambda sess: (vloop.sp_reset(sess) or True))
+
+        def feed1(sess):
+            if len(sess.gw.conns) < 2 or sess.client.state != vloop.State.CONNECTED:
+                return False
+            sess.env(sess.gw.conns[1].transport.env_feed, data2)
+            return True
+        sess = vloop.Session(kind=kind, script=[vloop.it_connect, vloop.it_feed(claims, 0), vloop.it_feed(data1, 0), drop, feed1], client_kw=kw)
+        o = sess.run()
+        n += 1
+        got = [v for _, v in o.received]
+        if o.end_reason != "quiescent" or not o.flags.get("script_done"):
+            vios.append({"kind": "client_session_stuck", "facts": {"client": kind}, "signature": f"client:stuck:{kind}",
+                         "detail": f"[{kind} client, {how}, {kw}] session ended with {o.end_reason} {o.flags}", "case": {"client": kind, "how": how}})
+        elif got != exp:
+            i = next((i for i, (g, e) in enumerate(zip(got, exp)) if g != e), min(len(got), len(exp)))
+            what = "identity" if i < len(got) and i < len(exp) and got[i][:8] == exp[i][:8] else "delivery"
+            vios.append({"kind": "identity_lost_on_reconnect" if what == "identity" else ("data_leaked" if len(got) > len(exp) else "data_withheld"),
+                         "facts": {"client": kind, "mechanism": "reconnect"}, "signature": f"client:{what}:{kind}:{map_on}:{mode}",
+                         "detail": f"[{kind} client map={'on' if map_on else 'off'} {mode}={list(mlist)}; claims and data on connection 0, {how}, data on connection 1] "
+                                   f"delivered {len(got)} messages, a decoder fed the same inputs returns {len(exp)}; first difference at position {i}: "
+                                   f"{str(got[i][8] if i < len(got) else None)[:80]} vs {str(exp[i][8] if i < len(exp) else None)[:80]}",
+                         "case": {"client": kind, "how": how, "map_on": map_on, "mode": mode, "mlist": list(mlist)}})
+    return n, vios
+
+
 def configs(ctx):
     lists = [("exclude", ())] + [(m, l) for m in ("exclude", "include") for l in (("Garmin",), ("GARMIN",), ("furuno",), ("Garmin", "Furuno"))]
     out = []
@@ -198,7 +250,13 @@ def run(ctx):
     cfgs = configs(ctx)
     names_used = "abcuzdefghi" if ctx.thorough else "abuzd"
     results = common.pmap(run_config, [c + (names_used, 60000) for c in cfgs])
+    from .. import vloop as _vl
+    ctasks = [(k, m, mode, ml) for k in _vl.KINDS for m in (False, True) for mode, ml in (("exclude", ()), ("exclude", ("Garmin",)), ("include", ("furuno",)))]
+    cres = common.pmap(_client_task, ctasks)
     vios, samples, per = [], [], {}
+    for cn, cv in cres:
+        vios += cv
+    client_runs = sum(cn for cn, _ in cres)
     states = trans = nontriv = depth = 0
     closed = True
     for r in results:
@@ -216,8 +274,8 @@ def run(ctx):
         "distinct_nontrivial": nontriv, "distinct_outcomes": 1 + len({v["kind"] for v in vios}),
         "rule": "BFS states of (real decoder, reference map source -> NAME, fast-frame bookkeeping); non-trivial = both sources have "
                 "claimed, or one has and a fast-packet message is partly received",
-        "samples": samples, "configurations": len(cfgs), "configs": per, "max_depth": depth,
-        "bound_completed": f"fixed point in every configuration; NAME alphabet {list(names_used)} x 2 sources", "exhaustive": closed,
+        "samples": samples, "configurations": len(cfgs), "configs": per, "max_depth": depth, "client_sessions_with_reconnect": client_runs,
+        "bound_completed": f"fixed point in every configuration; NAME alphabet {list(names_used)} x 2 sources; 4 clients x 6 configurations x EOF / reset between claims and data", "exhaustive": closed,
     }
     return {"coverage": cov, "violations": vios,
             "assumptions": ["clock frozen inside the 10-minute discovery window",
@@ -226,6 +284,9 @@ def run(ctx):
 
 def replay(ctx, rep):
     c = rep["case"]
+    if "client" in c:
+        n, v = _client_task((c["client"], c.get("map_on", False), c.get("mode", "exclude"), tuple(c.get("mlist", ()))))
+        return [x for x in v if x["case"]["how"] == c["how"]][:1]
     cfg_args = (c["map_on"], c["mode"], tuple(c["mlist"]), c["claim_filtered"], "abcuzdefghi", 10)
     hist = c["history"]
     orig = xstate.bfs
